@@ -39,7 +39,9 @@ uint64_t y_table_n;
 #define Y_ARR_N(p, N) ((uint64_t)(N))
 #endif
 #define Y_ARR_END(p, N) (&(p)->a[0] + Y_ARR_N(p, N))
-#define Y_FILL(p, N, v) { for (unsigned y_i = 0; y_i < (N); ++y_i) (p)->a[y_i] = (v); }
+/* std::array::fill, loop-free (N <= 16): an un-contracted loop in a callee breaks dfcc's loop-contract mode */
+#define Y_FILL1(p, N, v, i) if ((i) < (N)) (p)->a[(i)] = (v);
+#define Y_FILL(p, N, v) { Y_FILL1(p,N,v,0) Y_FILL1(p,N,v,1) Y_FILL1(p,N,v,2) Y_FILL1(p,N,v,3) Y_FILL1(p,N,v,4) Y_FILL1(p,N,v,5) Y_FILL1(p,N,v,6) Y_FILL1(p,N,v,7) Y_FILL1(p,N,v,8) Y_FILL1(p,N,v,9) Y_FILL1(p,N,v,10) Y_FILL1(p,N,v,11) Y_FILL1(p,N,v,12) Y_FILL1(p,N,v,13) Y_FILL1(p,N,v,14) Y_FILL1(p,N,v,15) __CPROVER_assert((N) <= 16, "Y_FILL model bound"); }
 #define Y_MIN(T, a, b) ((T)(b) < (T)(a) ? (T)(b) : (T)(a))
 #define Y_BITSET_SET(p, i) (*(p) = (uint16_t)(*(p) | (uint16_t)(1u << (i))))
 #define Y_BITSET_TEST(p, i) (((*(p)) >> (i)) & 1u)
